@@ -6,7 +6,7 @@
 use cgt_core::{
     CurrencyAmount, Disposal, MatchRule, Operation, TaxReport, Transaction, sort_by_date_ticker,
 };
-use cgt_format::Formatter;
+use cgt_format::{Formatter, round_gbp};
 use chrono::{Datelike, Local, NaiveDate};
 use rust_decimal::Decimal;
 use rust_decimal::prelude::ToPrimitive;
@@ -41,6 +41,20 @@ fn decimal_to_value(value: Decimal) -> Result<Value, PdfError> {
     Ok(decimal_to_f64(value)?.into_value())
 }
 
+/// Money is rounded to pence in `Decimal` (midpoints away from zero, like the text report)
+/// before it becomes a float: rounding the float in the template turned 8.575 into £8.57.
+fn money_to_value(value: Decimal) -> Result<Value, PdfError> {
+    decimal_to_value(round_gbp(value))
+}
+
+fn ratio_or_zero(numerator: Decimal, denominator: Decimal) -> Decimal {
+    if denominator.is_zero() {
+        Decimal::ZERO
+    } else {
+        numerator / denominator
+    }
+}
+
 fn date_dict(date: NaiveDate) -> Dict {
     let mut dict = Dict::new();
     dict.insert("year".into(), (date.year() as i64).into_value());
@@ -58,7 +72,7 @@ fn optional_date_value(date: Option<NaiveDate>) -> Value {
 
 fn currency_amount_value(amount: &CurrencyAmount) -> Result<Value, PdfError> {
     let mut dict = Dict::new();
-    dict.insert("amount".into(), decimal_to_value(amount.amount)?);
+    dict.insert("amount".into(), money_to_value(amount.amount)?);
     dict.insert(
         "currency".into(),
         amount.currency.code().to_string().into_value(),
@@ -123,12 +137,12 @@ fn build_summary_rows(report: &TaxReport) -> Result<Vec<Value>, PdfError> {
             "disposal_count".into(),
             (year.disposal_count() as i64).into_value(),
         );
-        row.insert("net_gain".into(), decimal_to_value(year.net_gain)?);
-        row.insert("total_gain".into(), decimal_to_value(year.total_gain)?);
-        row.insert("total_loss".into(), decimal_to_value(year.total_loss)?);
-        row.insert("gross_proceeds".into(), decimal_to_value(gross_proceeds)?);
-        row.insert("exemption".into(), decimal_to_value(exemption)?);
-        row.insert("taxable".into(), decimal_to_value(taxable)?);
+        row.insert("net_gain".into(), money_to_value(year.net_gain)?);
+        row.insert("total_gain".into(), money_to_value(year.total_gain)?);
+        row.insert("total_loss".into(), money_to_value(year.total_loss)?);
+        row.insert("gross_proceeds".into(), money_to_value(gross_proceeds)?);
+        row.insert("exemption".into(), money_to_value(exemption)?);
+        row.insert("taxable".into(), money_to_value(taxable)?);
         rows.push(row.into_value());
     }
     Ok(rows)
@@ -172,7 +186,11 @@ fn build_holdings_rows(report: &TaxReport) -> Result<(bool, Vec<Value>), PdfErro
             let mut row = Dict::new();
             row.insert("ticker".into(), h.ticker.clone().into_value());
             row.insert("quantity".into(), decimal_to_value(h.quantity)?);
-            row.insert("total_cost".into(), decimal_to_value(h.total_cost)?);
+            row.insert("total_cost".into(), money_to_value(h.total_cost)?);
+            row.insert(
+                "avg_cost".into(),
+                money_to_value(ratio_or_zero(h.total_cost, h.quantity))?,
+            );
             Ok(row.into_value())
         })
         .collect::<Result<Vec<_>, PdfError>>()?;
@@ -279,11 +297,19 @@ fn build_disposal_dict(disposal: &Disposal) -> Result<Dict, PdfError> {
     dict.insert("quantity".into(), decimal_to_value(disposal.quantity)?);
     dict.insert(
         "gross_proceeds".into(),
-        decimal_to_value(disposal.gross_proceeds)?,
+        money_to_value(disposal.gross_proceeds)?,
     );
-    dict.insert("proceeds".into(), decimal_to_value(disposal.proceeds)?);
-    dict.insert("total_gain".into(), decimal_to_value(total_gain)?);
-    dict.insert("total_cost".into(), decimal_to_value(total_cost)?);
+    dict.insert("proceeds".into(), money_to_value(disposal.proceeds)?);
+    dict.insert(
+        "fees".into(),
+        money_to_value(disposal.gross_proceeds - disposal.proceeds)?,
+    );
+    dict.insert(
+        "unit_price".into(),
+        money_to_value(ratio_or_zero(disposal.gross_proceeds, disposal.quantity))?,
+    );
+    dict.insert("total_gain".into(), money_to_value(total_gain)?);
+    dict.insert("total_cost".into(), money_to_value(total_cost)?);
 
     let matches: Vec<Value> = disposal
         .matches
@@ -292,7 +318,11 @@ fn build_disposal_dict(disposal: &Disposal) -> Result<Dict, PdfError> {
             let mut match_dict = Dict::new();
             match_dict.insert("rule".into(), match_rule_label(&m.rule).into_value());
             match_dict.insert("quantity".into(), decimal_to_value(m.quantity)?);
-            match_dict.insert("allowable_cost".into(), decimal_to_value(m.allowable_cost)?);
+            match_dict.insert("allowable_cost".into(), money_to_value(m.allowable_cost)?);
+            match_dict.insert(
+                "unit_cost".into(),
+                money_to_value(ratio_or_zero(m.allowable_cost, m.quantity))?,
+            );
             match_dict.insert(
                 "acquisition_date".into(),
                 optional_date_value(m.acquisition_date),
